@@ -50,6 +50,26 @@ theorem intersect_comm (a b : NodeList) : a.intersect b ≃ₙ b.intersect a :=
    fun s t d => by
     rw [intersect_edgeset, intersect_edgeset, or_comm, and_comm (a := s ∈ a.ids), and_comm (a := d ∈ a.ids)]⟩
 
+/-- associative on the three sets, for operands of any shape (repeated identifiers, dangling edges,
+    roots that name no node): unlike the union (C09, `union_assoc_partial`) no closure hypothesis is
+    needed, because every edge and root of an intersection is already restricted to its nodes -/
+theorem intersect_assoc (a b c : NodeList) :
+    (a.intersect b).intersect c ≃ₙ a.intersect (b.intersect c) :=
+  ⟨fun x => by simp only [intersect_ids, and_assoc],
+   fun x => by simp only [intersect_roots, intersect_ids]; grind,
+   fun s t d => by simp only [intersect_edgeset, intersect_ids]; grind⟩
+
+/-- the intersection of three lists has exactly the nodes all three have, whatever the grouping
+    and the order of the operands -/
+theorem intersect3_nodes (a b c : NodeList) (x : String) :
+    x ∈ ((a.intersect b).intersect c).ids ↔ x ∈ a.ids ∧ x ∈ b.ids ∧ x ∈ c.ids := by
+  simp only [intersect_ids, and_assoc]
+
+/-- monotone: an intersection never has a node, root or edge that the union lacks -/
+theorem intersect_sub_union_nodes (a b : NodeList) (x : String) (h : x ∈ (a.intersect b).ids) :
+    x ∈ (a.union b).ids := by
+  rw [intersect_ids] at h; rw [union_ids]; exact Or.inl h.1
+
 /-- idempotent: same nodes, the roots that name a node, the edges between present nodes -/
 theorem intersect_idem (a : NodeList) :
     (∀ x, x ∈ (a.intersect a).ids ↔ x ∈ a.ids) ∧
